@@ -1,9 +1,11 @@
 import inspect
+import types
 from collections.abc import Container, Iterable
 from dataclasses import dataclass, replace
 from typing import Any, Generic, Optional, TypeVar, Union, cast
 
 from ..common import TypeHint
+from ..feature_requirement import HAS_TYPE_UNION_OP
 from ..model_tools.definitions import (
     ClarifiedIntrospectionError,
     DescriptorAccessor,
@@ -24,6 +26,7 @@ from ..model_tools.introspection.sqlalchemy import get_sqlalchemy_shape
 from ..model_tools.introspection.typed_dict import get_typed_dict_shape
 from ..provider.essential import CannotProvide, Mediator
 from ..provider.loc_stack_filtering import create_loc_stack_checker
+from ..type_tools import normalize_type, strip_alias
 from ..type_tools.generic_resolver import GenericResolver, MembersStorage
 from .essential import RequestChecker
 from .located_request import LocatedRequest, LocatedRequestChecker
@@ -136,6 +139,7 @@ class PropertyExtender(MethodsProvider):
 
 
 ShapeT = TypeVar("ShapeT", bound=Union[InputShape, OutputShape])
+_UNION_ORIGINS = (Union, types.UnionType) if HAS_TYPE_UNION_OP else (Union,)
 
 
 class ShapeGenericResolver(Generic[ShapeT]):
@@ -146,7 +150,7 @@ class ShapeGenericResolver(Generic[ShapeT]):
     def provide(self) -> ShapeT:
         resolver = GenericResolver(self._get_members)
         members_storage = resolver.get_resolved_members(
-            self._initial_request.last_loc.type,
+            self._unwrap_collapsed_union(self._initial_request.last_loc.type),
         )
         if members_storage.meta is None:
             raise CannotProvide
@@ -157,6 +161,16 @@ class ShapeGenericResolver(Generic[ShapeT]):
                 for fld in members_storage.meta.fields
             ),
         )
+
+    def _unwrap_collapsed_union(self, tp: TypeHint) -> TypeHint:
+        # Union[Gen, Gen[Any]] denotes Gen[Any], normalization keeps the union only as a source
+        if strip_alias(tp) not in _UNION_ORIGINS:
+            return tp
+        norm = normalize_type(tp)
+        if norm.origin == Union:
+            return tp
+        args = tuple(arg.source for arg in norm.args)
+        return norm.origin[args] if args else norm.origin
 
     def _get_members(self, tp) -> MembersStorage[str, Optional[ShapeT]]:
         try:
